@@ -79,7 +79,7 @@ def main(names):
             for f in files:
                 d = json.load(open(f))
                 whats['%s: %s' % (d.get('kind'), d.get('what'))] = whats.get('%s: %s' % (d.get('kind'), d.get('what')), 0) + 1
-                if first is None and 'scenario' in d:
+                if first is None:
                     first = f
             r1 = r2 = None
             if first:
